@@ -247,7 +247,8 @@ func parseViewbox(attr string) (Rectangle, error) {
 func parseTransform(attr string) (out []transform, err error) {
 	ts := strings.Split(attr, ")")
 	for _, t := range ts {
-		t = strings.TrimSpace(t)
+		// transforms may be separated by whitespace and/or a comma
+		t = strings.TrimSpace(strings.TrimPrefix(strings.TrimSpace(t), ","))
 		if len(t) == 0 {
 			continue
 		}
